@@ -20,12 +20,21 @@
   * `C09_badvers` — a reached OPT with version ≠ 0 (root owner, well-formed options) gives extended
     RCODE 16 = BADVERS: header RCODE bits 0, OPT TTL top octet 1, no answer/authority data;
   * `C09_owner_not_root`, `C09_version`, `C09_limit` — the spec-level decision at an OPT record.
-  Not proved (hence `_partial`): "exactly one OPT iff reached" for responses a loaded zone produces
-  (verdict `answer`) and for TSIG-processed requests: it needs the frame lemma that the answering
-  code never changes `edns` nor adds a type-41 record, which is not done; the differential check
-  (audit tags `C09:*`) covers those.
+  For responses that a loaded zone produces (verdict `answer`; any zone contents, any answer):
+  * `C09_answer_opt` — with `w1` the writer that the answering phase leaves (`answerState`), the
+    response is `w1`'s content up to its cursor and then — iff the scan reached an OPT — exactly the
+    eleven octets of one OPT record (owner root, TYPE 41, CLASS = server payload size, version 0,
+    flags 0, RDLENGTH 0) as the last record of the message; no TSIG record is appended.  (Frame
+    lemma with `k = true`: the whole answering phase preserves the TSIG slot and the EDNS payload;
+    `finish` is read backwards in `Proofs/FinishInv`.)
+  Not proved (hence `_partial`): that the records which the *answering phase itself* puts into the
+  additional section are not of type 41 (they are the A/AAAA records of additional-section
+  processing, C06's subject — note that a zone may hold OPT-typed data, a known finding of C02, which
+  can appear in the answer section), and the case of a request with a TSIG record that verifies
+  (verdict `tsigReached`, C10's subject).  The differential check (audit tags `C09:*`) covers both.
 -/
 import QV.Proofs.ServerProps
+import QV.Proofs.ServerEcho
 
 namespace QV.C09
 open QV QV.Spec.Server QV.ServerScan
@@ -108,6 +117,33 @@ theorem C09_badvers (cfg : Server.Cfg) (tr : Server.Transport) (now bufLen : Nat
   rw [hrest]
   simp [specOptOctets, he, hv, verdictRcode, optRecordOctets, u16be]
 
+/-- **Theorem (answers).** When a loaded zone answers: the response is what the answering phase
+    wrote (`answerState`, counts filled in), followed — if and only if the scan reached an OPT in the
+    request — by exactly one OPT record with owner root, TYPE 41, CLASS = the server's payload size,
+    EDNS version 0, flags 0 and no options, which is then the last record of the message. -/
+theorem C09_answer_opt (cfg : Server.Cfg) (tr : Server.Transport) (now bufLen : Nat) (req : Bytes)
+    (hbuf : minBuf tr cfg.payload ≤ bufLen) (hpay : 512 ≤ cfg.payload) (hreq : req.size ≤ Rdata.USIZE_MAX)
+    (hv : (specScanWith (catKind cfg) cfg.payload req).verdict = .answer)
+    (b : Bytes) (h : Server.handleMessage cfg tr now bufLen req = .ok (some b)) :
+    if (specScanWith (catKind cfg) cfg.payload req).edns then
+      b.size = (answerState cfg tr now bufLen req).cursor + 11 ∧
+      (∀ i, i < (answerState cfg tr now bufLen req).cursor →
+        b[i]? = (Writer.withCounts (answerState cfg tr now bufLen req))[i]?) ∧
+      ∃ upper, b.toList.drop (b.size - 11) = optRecordOctets cfg.payload upper
+    else
+      b = (Writer.withCounts (answerState cfg tr now bufLen req)).extract 0
+        (answerState cfg tr now bufLen req).cursor := by
+  have := answer_finish cfg tr now bufLen req hbuf hpay hreq hv b h
+  cases he : (specScanWith (catKind cfg) cfg.payload req).edns with
+  | false => rw [he] at this; simpa using this
+  | true =>
+    rw [he] at this
+    simp only [if_true] at this ⊢
+    obtain ⟨h1, h2, x, h3⟩ := this
+    refine ⟨h1, h2, x.toNat, ?_⟩
+    rw [h1, Nat.add_sub_cancel, h3]
+    simp [optRecordOctets]
+
 /-! ### the decision at an OPT record (spec level) -/
 
 /-- an OPT that parses but whose owner is not the root: FORMERR (as an EDNS response) -/
@@ -167,5 +203,16 @@ example : ∃ b, Server.handleMessage exCfg .udp 0 65535 exBadVers = .ok (some b
   obtain ⟨b, hb, hl⟩ := server_error_response exCfg .udp 0 65535 exBadVers (by decide) (by decide) (by decide)
     (by decide +kernel) (by decide +kernel)
   exact ⟨b, hb, by rw [hl]; decide +kernel⟩
+
+/-- zone `a.` (IN) whose apex holds one A RRset; `a. IN A` with an OPT: the hypotheses of
+    `C09_answer_opt` hold (a loaded zone answers, the scan reached the OPT); `#eval` of the model gives
+    the response `… c0 0c 00 01 00 01 00 00 00 3c 00 04 c0 00 02 01 | 00 00 29 04 d0 00 00 00 00 00 00` -/
+def exZone : Zone.Zone := ⟨[[97]], 1, .narrow, .mk [⟨1, 60, [[192, 0, 2, 1]]⟩] []⟩
+def exCfgA : Server.Cfg := { payload := 1232, zones := [⟨⟨[[97]]⟩, 1, .Loaded, exZone⟩] }
+def exAns : Bytes :=
+  #[0, 1, 1, 0, 0, 1, 0, 0, 0, 0, 0, 1, 1, 97, 0, 0, 1, 0, 1, 0, 0, 41, 16, 0, 0, 0, 0, 0, 0, 0]
+
+example : (specScanWith (catKind exCfgA) 1232 exAns).verdict = .answer ∧
+    (specScanWith (catKind exCfgA) 1232 exAns).edns = true := by decide +kernel
 
 end QV.C09
